@@ -22,7 +22,11 @@ def _grab(call, names):
 
 
 def confirm(ob, call, rep):
-    cap = _grab(call, ['crash_workload', 'ann_roundtrip', 'ann_linebreak', 'log_verbatim'])
+    cap = _grab(call, ['crash_workload', 'ann_roundtrip', 'ann_linebreak', 'log_verbatim', 'ann_atomic'])
+    if cap['name'] == 'ann_atomic':
+        # structural obligation over the real method body (lock recorder + in-memory open): the concrete replay of
+        # the harness already ran the real code; the race it stands for needs two writers and is not re-enacted
+        return dict(ok=False, note='read-modify-write of the annotations / log file is not one exclusive critical section')
     if cap['name'] == 'crash_workload':
         k, a, b, s2, s3, rf = cap['args']
         d = dict(k=k, a=a, b=b, share2=bool(s2), share3=bool(s3), restore_first=bool(rf))
@@ -90,6 +94,8 @@ def main():
     obs.append(Ob('ann_roundtrip', 'C16_ctx.py', 'ann_roundtrip', T, env=dict(VH_MAXA=maxa)))
     obs.append(Ob('ann_linebreak', 'C16_ctx.py', 'ann_linebreak', T, env=dict(VH_MAXA=maxa)))
     obs.append(Ob('log_verbatim', 'C16_ctx.py', 'log_verbatim', T, env=dict(VH_MAXM=maxm)))
+    obs.append(Ob('ann_atomic', 'C16_ctx.py', 'ann_atomic', T))
+    obs.append(Ob('ann_atomic__twin', 'C16_ctx.py', 'ann_atomic__twin', 120, kind='twin'))
     obs.append(Ob('ann_roundtrip__twin', 'C16_ctx.py', 'ann_roundtrip__twin', 120, kind='twin'))
     obs.append(Ob('log_verbatim__twin', 'C16_ctx.py', 'log_verbatim__twin', 120, kind='twin'))
     run.functions = ['LocalModelDirectoryDatabase.transaction', 'LocalModelDirectoryDatabase.snapshot',
